@@ -8,7 +8,8 @@ VARIABLES l, bad
 Ok(e) == /\ e.k = "gen"                                                 \* total: a panic is another event kind
          /\ (e.hastyped = 1 => ResEq(e.res, e.typed))                   \* generic = kind-specific
          /\ (e.g.t = "Collection" /\ e.haseach = 1 => CollLaw(e.fn, e.res, e.each))
-         /\ (ReadOnly(e.fn) => StructEq(e.post, e.g))                   \* read-only entry points
+         /\ (ReadOnly(e.fn) \/ e.ro = 1 => StructEq(e.post, e.g) /\ e.spare = 1)   \* read-only entry points: the argument, and the spare
+                                                                        \* capacity behind each of its slices, are untouched
 Init == l = 1 /\ bad = {}
 Next == /\ l <= Len(Trace) /\ l' = l + 1
         /\ bad' = IF Ok(Trace[l]) THEN bad ELSE bad \cup {l}
